@@ -234,6 +234,14 @@ func init() {
 	c12gen := c12.Gen
 	c12.Gen = func(r *rand.Rand, tier string, idx int) *World {
 		w := c12gen(r, tier, idx)
+		if w.EDS[0].OldDS == "" && chance(r, 0.15) {
+			// a pod template without any label: the ownership labels are all its pods carry
+			for _, t := range w.EDS[0].Templates {
+				if t.Labels == nil {
+					t.NoLabels = true
+				}
+			}
+		}
 		if idx%6 == 4 && len(w.EDS) == 2 {
 			// two ExtendedDaemonSets of the same name in two namespaces, both with a canary strategy, whose
 			// pods have restarted differently on the nodes: whatever one of them derives from "its" pods
@@ -308,6 +316,13 @@ func genC07(r *rand.Rand, tier string, idx int) *World {
 	w.Extra["failSteps"] = pick(r, "20", "40", "80")
 	w.Extra["staleStatus"] = pick(r, "0", "0", "1")
 	w.Extra["terminating"] = pick(r, "", "", "", "", "active", "canary")
+	if chance(r, 0.2) {
+		// the canary template differs from the active one in pod metadata only (a config checksum)
+		c := *w.EDS[0].Templates["A"]
+		c.Checksum = "v2"
+		w.EDS[0].Templates["A^"] = &c
+		w.Extra["c07target"] = "A^"
+	}
 	c := w.EDS[0].Strategy.Canary
 	if c.Duration != "" {
 		c.Duration = pick(r, "1m", "3m", "10m", "10m")
@@ -329,7 +344,11 @@ func bodyC07(s *Sim) {
 	for i := 0; i < 3+len(s.W.Nodes); i++ {
 		s.Round(s.rngEnv)
 	}
-	s.userSetTemplate(def.NS, def.Name, "B")
+	target := "B"
+	if t := s.W.Extra["c07target"]; t != "" {
+		target = t
+	}
+	s.userSetTemplate(def.NS, def.Name, target)
 	s.RunTask(CtrlEDS, key)
 	s.RunTask(CtrlEDS, key)
 	s.Chaos()
@@ -359,7 +378,7 @@ func bodyC07(s *Sim) {
 			s.RunCLI("canary-fail", key)
 		case "storm":
 			for _, p := range s.Store.Pods() {
-				if letterOfPod(p) == "B" && p.DeletionTimestamp == nil {
+				if letterOfPod(p) == target && p.DeletionTimestamp == nil {
 					s.kSettle(p)
 					pp := s.Store.GetPod(p.Namespace, p.Name)
 					for i := 0; i < 5 && pp != nil && len(pp.Status.ContainerStatuses) > 0; i++ {
